@@ -91,10 +91,16 @@ def parseTemplateAux : Nat → List Nat → List Char → Except TErr (List Piec
         | .ok ps => .ok (.lit cur.reverse :: .var name :: ps)
     else parseTemplateAux fuel rest (Char.ofNat b :: cur)
 
+/-- The units `ParseTemplate` iterates over: the UTF-8 bytes (what the code does). -/
 def utf8Bytes (s : String) : List Nat := s.toUTF8.toList.map (·.toNat)
 
-def parseTemplate (s : String) : Except TErr (List Piece) :=
-  let bs := utf8Bytes s
+/-- The units a reader of the template sees: its code points (the specification
+    reading; coincides with `utf8Bytes` on ASCII strings). -/
+def codePoints (s : String) : List Nat := s.toList.map Char.toNat
+
+/-- `ParseTemplate` over the given units (`utf8Bytes` = the code). -/
+def parseTemplate (units : String → List Nat) (s : String) : Except TErr (List Piece) :=
+  let bs := units s
   parseTemplateAux (bs.length + 1) bs []
 
 -- ---------------------------------------------------------------------------
@@ -163,8 +169,8 @@ def renderPieces (vars : Vars) : List Piece → Except TErr String
         | .ok r => .ok (s ++ r)
 
 /-- `ReplaceVariables`. -/
-def replaceVariables (s : String) (vars : Vars) : Except TErr String :=
-  match parseTemplate s with
+def replaceVariables (units : String → List Nat) (s : String) (vars : Vars) : Except TErr String :=
+  match parseTemplate units s with
   | .error e => .error e
   | .ok ps => renderPieces vars ps
 
@@ -189,10 +195,10 @@ def lookupVarRef (s : String) (vars : Vars) : Except TErr VarVal :=
     | some v => .ok v
 
 /-- `resolveValue(fieldType, value, vars)` for a string `value`. -/
-def resolveValue (parseInt : String → Option Int) (ft : FType) (value : String) (vars : Vars) :
-    Except TErr Scalar :=
+def resolveValue (units : String → List Nat) (parseInt : String → Option Int) (ft : FType)
+    (value : String) (vars : Vars) : Except TErr Scalar :=
   match ft with
-  | .string => (replaceVariables value vars).map Scalar.str
+  | .string => (replaceVariables units value vars).map Scalar.str
   | .boolean =>
     match lookupVarRef value vars with
     | .error e => .error e
@@ -217,40 +223,40 @@ def resolveValue (parseInt : String → Option Int) (ft : FType) (value : String
     | .ok _ => .error .varType
   | .map _ => .error .fieldType
 
-def resolveScalar (parseInt : String → Option Int) (ft : FType) (vars : Vars) :
-    Scalar → Except TErr Scalar
-  | .str s => resolveValue parseInt ft s vars
+def resolveScalar (units : String → List Nat) (parseInt : String → Option Int) (ft : FType)
+    (vars : Vars) : Scalar → Except TErr Scalar
+  | .str s => resolveValue units parseInt ft s vars
   | x => .ok x
 
-def resolveScalars (parseInt : String → Option Int) (ft : FType) (vars : Vars) :
-    List Scalar → Except TErr (List Scalar)
+def resolveScalars (units : String → List Nat) (parseInt : String → Option Int) (ft : FType)
+    (vars : Vars) : List Scalar → Except TErr (List Scalar)
   | [] => .ok []
   | x :: xs =>
-    match resolveScalar parseInt ft vars x with
+    match resolveScalar units parseInt ft vars x with
     | .error e => .error e
     | .ok y =>
-      match resolveScalars parseInt ft vars xs with
+      match resolveScalars units parseInt ft vars xs with
       | .error e => .error e
       | .ok ys => .ok (y :: ys)
 
 /-- `resolveFilter(operator, fieldType, value, vars)`. -/
-def resolveLeafValue (parseInt : String → Option Int) (op : Op) (ft : FType) (v : Val)
-    (vars : Vars) : Except TErr Val :=
+def resolveLeafValue (units : String → List Nat) (parseInt : String → Option Int) (op : Op)
+    (ft : FType) (v : Val) (vars : Vars) : Except TErr Val :=
   match op with
   | .in_ =>
     (match v with
-      | .arr l => (resolveScalars parseInt ft vars l).map Val.arr
+      | .arr l => (resolveScalars units parseInt ft vars l).map Val.arr
       | _ => .error .expectedArray)
   | .exists_ =>
     (match ft with
       | .map u =>
         (match v with
-          | .sc s => (resolveScalar parseInt u vars s).map Val.sc
+          | .sc s => (resolveScalar units parseInt u vars s).map Val.sc
           | x => .ok x)
       | _ => .error .existsNonMap)
   | _ =>
     (match v with
-      | .sc s => (resolveScalar parseInt ft vars s).map Val.sc
+      | .sc s => (resolveScalar units parseInt ft vars s).map Val.sc
       | x => .ok x)
 
 -- ---------------------------------------------------------------------------
@@ -357,11 +363,11 @@ def resolveTreeList (leaf : Op → String → Val → Except TErr Val) :
 end
 
 /-- What the walk does on one leaf. -/
-def resolveLeaf (parseInt : String → Option Int) (schema : Schema) (vars : Vars)
-    (op : Op) (key : String) (v : Val) : Except TErr Val :=
+def resolveLeaf (units : String → List Nat) (parseInt : String → Option Int) (schema : Schema)
+    (vars : Vars) (op : Op) (key : String) (v : Val) : Except TErr Val :=
   match schema.fieldType key with
   | .error e => .error e
-  | .ok ft => resolveLeafValue parseInt op ft v vars
+  | .ok ft => resolveLeafValue units parseInt op ft v vars
 
 structure Template where
   resource : String
@@ -370,9 +376,10 @@ structure Template where
   vars : List (String × VarDecl)
   deriving Repr, Inhabited
 
-/-- `ResolveFilterTemplate(resource, body, varDecls, callVars)`. -/
-def resolveTemplate (parseDate : String → Option Int) (t : Template) (call : Vars) :
-    Except TErr (Option Filter) :=
+/-- `ResolveFilterTemplate(resource, body, varDecls, callVars)`; `units := utf8Bytes`
+    is the code, `units := codePoints` the specification reading. -/
+def resolveTemplateWith (units : String → List Nat) (parseDate : String → Option Int)
+    (t : Template) (call : Vars) : Except TErr (Option Filter) :=
   match buildVars parseDate t.vars call with
   | .error e => .error e
   | .ok vars =>
@@ -381,6 +388,11 @@ def resolveTemplate (parseDate : String → Option Int) (t : Template) (call : V
     | some schema =>
       match t.body with
       | none => .ok none
-      | some f => (resolveTree (resolveLeaf intLit? schema vars) f).map some
+      | some f => (resolveTree (resolveLeaf units intLit? schema vars) f).map some
+
+/-- The code: byte-wise `ParseTemplate`. -/
+def resolveTemplate (parseDate : String → Option Int) (t : Template) (call : Vars) :
+    Except TErr (Option Filter) :=
+  resolveTemplateWith utf8Bytes parseDate t call
 
 end Ledger.Query
